@@ -241,17 +241,22 @@ def _payload(e, k):
 
 
 def _then_wrap(eng, ctx, clo, arg, wrap):
-    """call `clo(arg)` (closure or fn item, straight-line) and wrap the result"""
-    from .models_reg import run_closure
-    if isinstance(clo, Closure):
-        return wrap(run_closure(eng, ctx, clo, [arg]))
-    if isinstance(clo, FnItem):
+    """call `clo(arg)` (closure or fn item) and wrap the result"""
+    if isinstance(clo, FnItem) and eng.prog.resolve(clo.path) is None:
         norm = norm_callee(clo.path)
         for pat, h in eng.models.items():
             if not pat.startswith("__") and re.search(pat, norm):
                 eng.callees_modelled.add(norm)
-                return wrap(h(eng, ctx, None, clo.path, [arg], None))
-    raise Unsupported(f"call of {clo} inside a Result combinator")
+                r = h(eng, ctx, None, clo.path, [arg], None)
+                if not isinstance(r, (Fork, Script, Diverge, TailCall)):
+                    return wrap(r)
+    # the general case: the callee is real code (a closure or a function of the crate) and may fork
+    from . import models_std
+
+    def script(c):
+        r = yield from models_std.call_fn(eng, c, clo, [arg])
+        return wrap(r)
+    return Script(script)
 
 
 def m_res_map_err2(eng, ctx, f, path, args, dty):
